@@ -23,6 +23,10 @@
 #define vf_introspect VF_X(_vf_introspect)
 #define vf_is_mp11 VF_X(_vf_is_mp11)
 #define vf_probe VF_X(_vf_probe)
+#define vf_qsize VF_X(_vf_qsize)
+#define vf_exec1 VF_X(_vf_exec1)
+#define vf_execq VF_X(_vf_execq)
+#define vf_enq VF_X(_vf_enq)
 #define vf_pay_stdany VF_X(_vf_pay_stdany)
 #define vf_pay_boostany VF_X(_vf_pay_boostany)
 #endif
@@ -105,6 +109,25 @@ extern "C" int vf_sidx(int mi, int id);
 template <int N> struct Act {
   template <class E, class F, class S, class T> void operator()(E const& e, F& f, S&, T&) { vf_log(VF_ACT(N), vf_pay(e)); VF_PROBE(2, N, f) VF_BEHAV_HOOK(2, N, e, f) }
 };
+// behaviours that submit further events while an event is being processed (C04).  Mode 0: fsm.process_event, 1: fsm.enqueue_event.
+// The nested event carries the payload of the triggering event + 1.
+template <class Ev, int Mode, class E, class F> inline void vf_send(E const& e, F& f) {
+  Ev n((int)((unsigned)vf_pay(e) + 1u));
+  if (Mode == 0) f.process_event(n); else f.enqueue_event(n);
+}
+template <int N, class Ev, int Mode> struct ActSend {
+  template <class E, class F, class S, class T> void operator()(E const& e, F& f, S&, T&) { vf_log(VF_ACT(N), vf_pay(e)); vf_send<Ev, Mode>(e, f); }
+};
+template <int N, class Ev1, int M1, class Ev2, int M2> struct ActSend2 {
+  template <class E, class F, class S, class T> void operator()(E const& e, F& f, S&, T&) { vf_log(VF_ACT(N), vf_pay(e)); vf_send<Ev1, M1>(e, f); vf_send<Ev2, M2>(e, f); }
+};
+template <int N, class Ev, int Mode> struct GdSend {
+  template <class E, class F, class S, class T> bool operator()(E const& e, F& f, S&, T&) { vf_send<Ev, Mode>(e, f); return vf_guard(N) != 0; }
+};
+#define VF_STATE_BODY_SEND(I, ON_ENTRY, ON_EXIT)                                                      \
+  template <class E, class F> void on_entry(E const& e, F& f) { vf_log(VF_ENTRY(I), vf_pay(e)); ON_ENTRY }  \
+  template <class E, class F> void on_exit(E const& e, F& f) { vf_log(VF_EXIT(I), vf_pay(e)); ON_EXIT }
+
 // guard of a completion (anonymous) transition: logged in its own class (see DESIGN C10)
 extern "C" int vf_guardc(int site);
 template <int N> struct Gc {
@@ -167,7 +190,7 @@ struct vf_cfg : msm::backmp11::default_state_machine_config {
 // the root derives from the back-end so the harness can reach the protected event pool
 #define VF_ROOT(F) struct M : msm::backmp11::state_machine<F, vf_cfg, M> { \
     typedef msm::backmp11::state_machine<F, vf_cfg, M> base; using base::base; \
-    std::size_t vf_pool_size() const { return this->get_event_pool().events.size(); } \
+    std::size_t vf_pool_size() { std::size_t n = 0; auto& ev = this->get_event_pool().events; for (auto it = ev.begin(); it != ev.end(); ++it) if (!(*it)->marked_for_deletion()) ++n; return n; } \
     void vf_pool_clear() { this->get_event_pool().events.clear(); } };
 #define VF_ROOT_H(F, H) VF_ROOT(F)
 #define VF_FRONT_HISTORY(X) typedef X history;
